@@ -147,6 +147,13 @@ Proof.
   rewrite !forallb_forall. intros H x Hx. apply H. rewrite <- (firstn_skipn n l). apply in_or_app. right. exact Hx.
 Qed.
 
+Lemma skipn_nth' {A} (l : list A) : forall n x, nth_error l n = Some x -> skipn n l = x :: skipn (S n) l.
+Proof.
+  induction l as [|a l IH]; intros [|n] x H; try discriminate.
+  - injection H as <-. reflexivity.
+  - cbn [nth_error] in H. cbn [skipn]. apply IH, H.
+Qed.
+
 (* ================================================================ depth of events *)
 Lemma depth_after_app d a b : depth_after d (a ++ b) = depth_after (depth_after d a) b.
 Proof.
@@ -442,5 +449,558 @@ Proof.
     + destruct ts as [|t2 ts2]; [|exact Hv2].
       intros Hv. cbn [ends_visible] in Hv. rewrite (He2 eq_refl). apply Hv1, Hv.
     + discriminate.
+Qed.
+
+(* ---------------------------------------------------------------- stream steps on the invariant *)
+Lemma LI_tokens st n p toks :
+  LI st n p -> PO n p -> toks_nolt toks = true -> (lvl st = D n \/ toks_nocrlf toks = true) ->
+  exists p', LI (push_tokens c toks st) n p' /\ PO n p' /\ (p = None -> toks_nocrlf toks = true -> p' = None)
+             /\ (ends_visible toks = true -> p' = None) /\ (toks = [] -> p' = p).
+Proof. unfold LI. rewrite (proj1 (push_tokens_spec c toks st)). apply Lines_tokens. Qed.
+
+Lemma LI_string st n p s :
+  LI st n p -> PO n p -> nolt s = true -> (lvl st = D n \/ nocrlf s = true) ->
+  exists p', LI (push_str c s st) n p' /\ PO n p' /\ (p = None -> nocrlf s = true -> p' = None).
+Proof.
+  unfold LI. rewrite ch_push_str. intros H Hp Hs HL.
+  destruct (Lines_string (O, None) (lvl st) n s _ p H Hp Hs HL) as [p' [H1 [H2 [H3 _]]]]. exists p'. repeat split; assumption.
+Qed.
+
+Lemma LI_level st n p d : LI st n p -> LI (map_out (fun o => os_add_level o d) st) n p.
+Proof. exact (fun H => H). Qed.
+
+Lemma LI_newline st n p ind :
+  LI st n p -> PO n p -> LI (map_out (fun o => os_push_newline (oc_fmt c) o ind) st) n (Some (units (lvl st) ind)).
+Proof. unfold LI. rewrite ch_map_newline. apply Lines_nl. Qed.
+
+Lemma units_int_ind L x : units L (int_ind x) = x.
+Proof. unfold int_ind. destruct (Z.eqb_spec x 0); cbn [units]; lia. Qed.
+
+Lemma LI_level_newline st n p d :
+  LI st n p -> PO n p -> LI (level_newline c d st) n (Some (lvl st + d)).
+Proof.
+  unfold LI. rewrite ch_level_newline. intros H Hp.
+  pose proof (Lines_nl f E (O, None) _ n p (lvl st + d) (int_ind (lvl st + d)) H Hp) as H1.
+  rewrite units_int_ind in H1. exact H1.
+Qed.
+
+Lemma LI_newline_int st n p (x : Z) :
+  LI st n p -> PO n p ->
+  LI (map_out (fun o => os_push_newline_int (oc_fmt c) o (os_level o - x)) st) n (Some (lvl st - x)).
+Proof.
+  unfold LI, fchunks, map_out, os_push_newline_int. cbn [fs_out]. rewrite ch_push_newline. intros H Hp.
+  pose proof (Lines_nl f E (O, None) _ n p (os_level (fs_out st)) (int_ind (os_level (fs_out st) - x)) H Hp) as H1.
+  rewrite units_int_ind in H1. exact H1.
+Qed.
+
+Lemma PO_some n k : k = D n -> PO n (Some k).
+Proof. intros -> k' Hk. injection Hk as <-. reflexivity. Qed.
+Lemma PC_some n k : k = D n - 1 -> PC n (Some k).
+Proof. intros -> k' Hk. injection Hk as <-. reflexivity. Qed.
+
+(* ---------------------------------------------------------------- parents *)
+Definition nwf (q : anode) : bool := truthy_s (an_name q) || negb (truthy_l (an_attrs q)).
+Definition pwf (parent : option anode) : Prop := match parent with Some q => nwf q = true | None => True end.
+Definition named_opt (parent : option anode) : bool := match parent with Some q => truthy_s (an_name q) | None => false end.
+
+Lemma get_indent_wf parent : pwf parent -> get_indent c parent = if named_opt parent then 1 else 0.
+Proof.
+  destruct parent as [q|]; [|reflexivity]. cbn [pwf named_opt get_indent]. unfold nwf, is_snippet. intros H.
+  destruct (an_name q) as [[|x nm]|]; cbn [truthy_s] in *; cbn [orb negb andb] in *.
+  - apply negb_true_iff in H. rewrite H. reflexivity.
+  - rewrite Hskip. reflexivity.
+  - apply negb_true_iff in H. rewrite H. reflexivity.
+Qed.
+Lemma is_snippet_wf parent : pwf parent -> match parent with Some _ => is_snippet_opt parent = negb (named_opt parent) | None => True end.
+Proof.
+  destruct parent as [q|]; [|exact (fun _ => I)]. cbn [pwf named_opt is_snippet_opt]. unfold nwf, is_snippet. intros H.
+  destruct (truthy_s (an_name q)); [reflexivity|]. cbn [orb negb andb] in *. exact H.
+Qed.
+
+(* ---------------------------------------------------------------- what is known after a node *)
+Definition tailb (parent : option anode) (n : anode) (idx : nat) (items : list anode) : bool :=
+  tail_newline c (should_format c parent n idx items) parent idx items.
+
+Definition Qn (parent : option anode) (n : anode) (idx : nat) (items : list anode) (n' : nat) (p' : option Z) : Prop :=
+  if tailb parent n idx items
+  then p' = Some (D n' - (if is_snippet_opt parent then 0 else 1))
+  else PO n' p' /\ (ends_text n = true -> p' = None).
+
+(* the walk over the children of [node] from a state where [m1] events are read *)
+Definition next_ok (node : anode) (next : fstate -> fstate) (m1 : nat) : Prop :=
+  forall st p, LI st m1 p -> PO m1 p -> D m1 = lvl st + get_indent c (Some node) ->
+  exists p', LI (next st) (m1 + length (flat_map (tree_events c) (an_children node))) p' /\
+             (an_children node = [] -> p' = p) /\
+             (forall l0 x, an_children node = l0 ++ [x] ->
+                Qn (Some node) x (length l0) (an_children node) (m1 + length (flat_map (tree_events c) (an_children node))) p').
+
+Lemma block_tag_nolt v : toks_nolt v = true -> starts_with_block_tag c v = false.
+Proof.
+  destruct v as [|[[|lt r]|i nm] v]; try reflexivity. cbn [toks_nolt forallb tok_nolt nolt]. intros H.
+  apply andb_true_iff in H. destruct H as [H _]. apply andb_true_iff in H. destruct H as [H _].
+  apply negb_true_iff in H. cbn [starts_with_block_tag]. rewrite H. reflexivity.
+Qed.
+
+(* the value of a named element after ">" *)
+Lemma LI_el_value node st m1 :
+  LI st m1 None -> D m1 = lvl st + 1 -> oval_nolt (an_value node) = true ->
+  exists p', LI (el_value c node st) m1 p' /\ (if no_children node then PC m1 p' else PO m1 p')
+             /\ (truthy_l (an_value node) = false -> p' = None).
+Proof.
+  intros H HD Hv. unfold el_value, no_children.
+  destruct (an_value node) as [[|v0 value]|] eqn:Ev.
+  - exists None. repeat split; try assumption. destruct (an_children node); [apply Pclose_none|apply Popen_none].
+  - cbn [oval_nolt] in Hv. rewrite (block_tag_nolt _ Hv), orb_false_r.
+    destruct (existsb has_newline (v0 :: value)) eqn:Enl.
+    + pose proof (LI_level_newline st m1 None 1 H (Popen_none E m1)) as H1.
+      assert (Hp1 : PO m1 (Some (lvl st + 1))) by (apply PO_some; lia).
+      destruct (LI_tokens _ m1 _ (v0 :: value) H1 Hp1 Hv) as [p2 [H2 [Hp2 _]]].
+      { left. rewrite lvl_level_newline. lia. }
+      destruct (an_children node) as [|c0 ch].
+      * pose proof (LI_level_newline _ m1 p2 (-1) H2 Hp2) as H3. eexists. split; [exact H3|]. split; [|discriminate].
+        apply PC_some. rewrite lvl_push_tokens, lvl_level_newline. lia.
+      * exists p2. split; [apply LI_level, H2|]. split; [exact Hp2|discriminate].
+    + destruct (LI_tokens st m1 None (v0 :: value) H (Popen_none E m1) Hv) as [p2 [H2 [Hp2 [Hn2 _]]]].
+      { right. apply has_newline_nocrlf, Enl. }
+      rewrite (Hn2 eq_refl (has_newline_nocrlf _ Enl)) in *.
+      exists None. split; [exact H2|]. split; [|discriminate]. destruct (an_children node); [apply Pclose_none|apply Popen_none].
+  - exists None. repeat split; try assumption. destruct (an_children node); [apply Pclose_none|apply Popen_none].
+Qed.
+
+(* the tabstop of an empty leaf *)
+Lemma LI_el_leaf nm node st m1 p :
+  LI st m1 p -> D m1 = lvl st + 1 -> PC m1 p -> (truthy_l (an_value node) = false -> no_children node = true -> p = None) ->
+  exists p', LI (el_leaf c nm node st) m1 p' /\ PC m1 p'.
+Proof.
+  intros H HD Hp Hnone. unfold el_leaf. fold (no_children node).
+  destruct (negb (truthy_l (an_value node)) && no_children node) eqn:Eb;
+    [|exists p; split; assumption].
+  apply andb_true_iff in Eb. destruct Eb as [Eb Eb2]. apply negb_true_iff in Eb. rewrite (Hnone Eb Eb2) in *.
+  destruct (oc_format_leaf c || mem_str nm (oc_format_force c)).
+  - pose proof (LI_level_newline st m1 None 1 H (Popen_none E m1)) as H1.
+    assert (Hp1 : PO m1 (Some (lvl st + 1))) by (apply PO_some; lia).
+    destruct (LI_tokens _ m1 _ caret H1 Hp1 eq_refl (or_intror eq_refl)) as [p2 [H2 [Hp2 _]]].
+    pose proof (LI_level_newline _ m1 p2 (-1) H2 Hp2) as H3. eexists. split; [exact H3|].
+    apply PC_some. rewrite lvl_push_tokens, lvl_level_newline. lia.
+  - destruct (LI_tokens st m1 None caret H (Popen_none E m1) eq_refl (or_intror eq_refl)) as [p2 [H2 [_ [Hn2 _]]]].
+    rewrite (Hn2 eq_refl eq_refl) in H2. exists None. split; [exact H2|apply Pclose_none].
+Qed.
+
+(* push_snippet: text, children, rest of the text *)
+Lemma LI_el_snippet node next st st' m1 p :
+  el_snippet c node next st = Some st' ->
+  keeps_lvl next -> next_ok node next m1 ->
+  LI st m1 p -> PO m1 p -> D m1 = lvl st + get_indent c (Some node) ->
+  toks_nolt (oval (an_value node)) = true ->
+  (lvl st = D m1 \/ toks_nocrlf (oval (an_value node)) = true) ->
+  let m2 := (m1 + length (flat_map (tree_events c) (an_children node)))%nat in
+  D m2 = D m1 ->
+  exists ix pw,
+    find_field_ix (oval (an_value node)) = Some ix /\ an_children node <> [] /\
+    (forall l0 x, an_children node = l0 ++ [x] -> Qn (Some node) x (length l0) (an_children node) m2 pw) /\
+    (skipn (S ix) (oval (an_value node)) = [] -> LI st' m2 pw) /\
+    (PO m2 pw -> exists p', LI st' m2 p' /\ PO m2 p' /\ (pw = None -> toks_nocrlf (oval (an_value node)) = true -> p' = None)).
+Proof.
+  intros Es Hk Hnext H Hp HD Hv HL m2 HD2. unfold el_snippet in Es.
+  destruct (an_value node) as [[|v0 value]|] eqn:Ev; try discriminate.
+  assert (Hne : an_children node <> []) by (intros En; rewrite En in Es; discriminate).
+  remember (an_children node) as kids eqn:Ek in Es. destruct kids as [|c0 ch]; try discriminate. clear Ek.
+  cbn [oval] in *. set (val := v0 :: value) in *.
+  destruct (find_field_ix val) as [ix|] eqn:Ef; try discriminate.
+  exists ix.
+  set (st1 := push_tokens c (firstn ix val) st) in *.
+  assert (Hv1 : toks_nolt (firstn ix val) = true) by (apply forallb_firstn, Hv).
+  assert (HL1 : lvl st = D m1 \/ toks_nocrlf (firstn ix val) = true).
+  { destruct HL as [HL|HL]; [left; exact HL|right; apply forallb_firstn, HL]. }
+  destruct (LI_tokens st m1 p (firstn ix val) H Hp Hv1 HL1) as [p1 [H1 [Hp1 _]]]. fold st1 in H1.
+  assert (Hl1 : lvl st1 = lvl st) by apply lvl_push_tokens.
+  destruct (Hnext st1 p1 H1 Hp1) as [pw [Hw [_ HQ]]]; [rewrite Hl1; exact HD|].
+  fold m2 in Hw, HQ.
+  exists pw. split; [reflexivity|]. split; [exact Hne|]. split; [exact HQ|].
+  assert (Hl2 : lvl (next st1) = lvl st) by (rewrite Hk; exact Hl1).
+  assert (HLr : forall r, (exists k, r = skipn k val) -> lvl st = D m2 \/ toks_nocrlf r = true).
+  { intros r [k ->]. destruct HL as [HL|HL]; [left; rewrite HD2; exact HL|right; apply forallb_skipn, HL]. }
+  split.
+  - intros Er. assert (En : nth_error val (S ix) = None).
+    { destruct (nth_error val (S ix)) eqn:En; [|reflexivity]. apply skipn_nth' in En. rewrite En in Er. discriminate. }
+    rewrite En in Es. cbv beta iota zeta in Es. injection Es as <-. change (skipn ix value) with (skipn (S ix) val). rewrite Er.
+    unfold LI. rewrite (proj1 (push_tokens_spec c [] (next st1))). cbn [token_chunks flat_map]. rewrite app_nil_r. exact Hw.
+  - intros Hpw.
+    assert (Tail : forall st2 pos p2, LI st2 m2 p2 -> PO m2 p2 -> lvl st2 = lvl st ->
+              exists p', LI (push_tokens c (skipn pos val) st2) m2 p' /\ PO m2 p' /\
+                         (p2 = None -> toks_nocrlf val = true -> p' = None)).
+    { intros st2 pos p2 Ha Hb Hc.
+      destruct (LI_tokens st2 m2 p2 (skipn pos val) Ha Hb (forallb_skipn _ _ _ Hv)) as [p3 [H3 [Hp3 [Hn3 _]]]].
+      { rewrite Hc. apply HLr. exists pos. reflexivity. }
+      exists p3. repeat split; try assumption. intros e Hc'. apply Hn3; [exact e|apply forallb_skipn, Hc']. }
+    destruct (nth_error val (S ix)) as [[s|i nm]|] eqn:En.
+    + destruct (negb (Nat.eqb (os_line (fs_out (next st1))) (os_line (fs_out st1)))).
+      * injection Es as <-.
+        assert (Hs : nolt s = true).
+        { apply nth_error_In in En. unfold toks_nolt in Hv. rewrite forallb_forall in Hv. apply (Hv _ En). }
+        destruct (LI_string (next st1) m2 pw (lstrip s) Hw Hpw (forallb_lstrip _ s Hs)) as [p3 [H3 [Hp3 Hn3]]].
+        { destruct HL as [HL|HL]; [left; rewrite Hl2, HD2; exact HL|right].
+          apply nth_error_In in En. unfold toks_nocrlf in HL. rewrite forallb_forall in HL. specialize (HL _ En).
+          cbn [tok_nocrlf] in HL. unfold nocrlf in *. apply forallb_lstrip, HL. }
+        destruct (Tail _ (S (S ix)) p3 H3 Hp3) as [p4 [H4 [Hp4 Hn4]]]; [rewrite lvl_push_str; exact Hl2|].
+        exists p4. repeat split; try assumption. intros e Hc'. apply Hn4; [|exact Hc'].
+        apply Hn3; [exact e|]. apply nth_error_In in En. unfold toks_nocrlf in Hc'. rewrite forallb_forall in Hc'.
+        specialize (Hc' _ En). cbn [tok_nocrlf] in Hc'. unfold nocrlf in *. apply forallb_lstrip, Hc'.
+      * injection Es as <-. apply (Tail _ (S ix) pw Hw Hpw Hl2).
+    + injection Es as <-. apply (Tail _ (S ix) pw Hw Hpw Hl2).
+    + injection Es as <-. apply (Tail _ (S ix) pw Hw Hpw Hl2).
+Qed.
+
+(* ---------------------------------------------------------------- a named element *)
+Lemma el_snippet_some_inv node next st st' :
+  el_snippet c node next st = Some st' ->
+  exists v0 value ix, an_value node = Some (v0 :: value) /\ find_field_ix (v0 :: value) = Some ix /\ an_children node <> [].
+Proof.
+  unfold el_snippet. destruct (an_value node) as [[|v0 value]|]; try discriminate.
+  destruct (an_children node) as [|c0 ch]; try discriminate.
+  destruct (find_field_ix (v0 :: value)) as [ix|] eqn:Ef; try discriminate.
+  intros _. exists v0, value, ix. split; [reflexivity|]. split; [exact Ef|discriminate].
+Qed.
+
+Lemma snippet_ok_inv q v0 value ix :
+  snippet_ok c q = true -> an_value q = Some (v0 :: value) -> an_children q <> [] -> find_field_ix (v0 :: value) = Some ix ->
+  toks_nocrlf (v0 :: value) = true /\ (last_formatted c q = true -> skipn (S ix) (v0 :: value) = []).
+Proof.
+  unfold snippet_ok. intros H Ev Hne Ef. rewrite Ev, Ef in H. destruct (an_children q) as [|c0 ch]; [contradiction|].
+  apply andb_true_iff in H. destruct H as [H1 H2]. split; [exact H1|]. intros Hl. rewrite Hl in H2. cbn [negb orb] in H2.
+  destruct (skipn (S ix) (v0 :: value)); [reflexivity|discriminate].
+Qed.
+
+Lemma last_ctx (q : anode) l0 x :
+  an_children q = l0 ++ [x] ->
+  tailb (Some q) x (length l0) (an_children q) = should_format c (Some q) x (length l0) (an_children q) /\
+  last_formatted c q = should_format c (Some q) x (length l0) (an_children q) /\
+  last_ok c q = (should_format c (Some q) x (length l0) (an_children q) || ends_text x).
+Proof.
+  intros El. unfold tailb, tail_newline, last_formatted, last_ok. rewrite El, rev_app_distr. cbn [rev app].
+  rewrite app_length. cbn [length]. replace (length l0 + 1 - 1)%nat with (length l0) by lia.
+  rewrite Nat.eqb_refl. replace (Nat.eqb (length l0 + 1) 0) with false by (symmetry; apply Nat.eqb_neq; lia).
+  rewrite !andb_true_r. repeat split.
+Qed.
+
+Lemma text_tag_open name : name <> [] -> name_start name = true -> text_tag (c_lt :: name) = [TOpen name].
+Proof.
+  intros Hne Hs. destruct name as [|ch name]; [contradiction|].
+  cbn [name_start] in Hs. apply andb_true_iff in Hs. destruct Hs as [H1 H2].
+  apply negb_true_iff in H1. apply negb_true_iff in H2.
+  unfold text_tag. rewrite N.eqb_refl, H1, H2. reflexivity.
+Qed.
+
+Lemma good_self_close : good (self_close c ++ [c_gt]) = true.
+Proof. unfold self_close. destruct (str_eqb _ s_xhtml); [reflexivity|]. destruct (str_eqb _ s_xml); reflexivity. Qed.
+
+Lemma LI_el_named x nm node next st m p E0 E1 :
+  an_name node = Some (x :: nm) ->
+  good (x :: nm) = true -> name_start (x :: nm) = true ->
+  oval_nolt (an_value node) = true ->
+  forallb attr_good (match an_attrs node with Some l => l | None => [] end) = true ->
+  last_ok c node = true -> snippet_ok c node = true ->
+  E = E0 ++ tree_events c node ++ E1 -> m = length E0 ->
+  LI st m p -> PO m p -> lvl st = D m ->
+  keeps_lvl next -> (an_children node = [] -> forall s, next s = s) ->
+  (self_closed node = false -> next_ok node next (S m)) ->
+  LI (el_named c (x :: nm) node next st) (m + length (tree_events c node)) None.
+Proof.
+  intros En Hgn Hns Hv Ha Hlast Hsn HE Hm H Hp HL Hk Hnil Hnext.
+  apply good_parts in Hgn. destruct Hgn as [Hnolt Hnocrlf].
+  set (name := tag_name c (x :: nm)).
+  assert (Nb : nocrlf name = true) by (unfold name; rewrite nocrlf_tag_name; exact Hnocrlf).
+  assert (Nl : nolt name = true) by (unfold name; rewrite nolt_tag_name; exact Hnolt).
+  assert (Ns : name_start name = true) by (unfold name; rewrite name_start_tag_name; exact Hns).
+  assert (Nn : name <> []) by (apply tag_name_nonempty; discriminate).
+  unfold el_named. cbv zeta.
+  (* "<name" and the attributes *)
+  assert (Ho : LI (el_open c (x :: nm) node st) (S m) None).
+  { unfold el_open. rewrite comment_off. fold name.
+    assert (H1 : LI (push_str c (c_lt :: name) st) (S m) None).
+    { unfold LI. rewrite ch_push_str, string_chunks_nocrlf
+        by (cbn [nocrlf forallb]; fold (nocrlf name); rewrite Nb; reflexivity).
+      apply (Lines_open f E (O, None) _ m p name H Hp). apply text_tag_open; assumption. }
+    destruct (LI_PL _ _ (S m) None H1 (Popen_none E _) (PL_el_attrs node _ Ha)) as [p' [H2 [_ Hn2]]].
+    rewrite (Hn2 eq_refl) in H2. exact H2. }
+  assert (Hlo : lvl (el_open c (x :: nm) node st) = D m) by (rewrite lvl_el_open; exact HL).
+  set (st1 := el_open c (x :: nm) node st) in *.
+  rewrite tree_events_eq in HE |- *. rewrite En in HE |- *. fold name in HE |- *.
+  change (an_self node && match an_children node with [] => true | _ => false end && negb (truthy_l (an_value node)))
+    with (self_closed node).
+  destruct (self_closed node) eqn:Esc.
+  - cbn [length]. rewrite Nat.add_1_r.
+    destruct (LI_PL _ _ (S m) None Ho (Popen_none E _) (PL_push_str _ st1 good_self_close)) as [p' [H2 [_ Hn2]]].
+    rewrite (Hn2 eq_refl) in H2. exact H2.
+  - specialize (Hnext eq_refl).
+    set (kids := flat_map (tree_events c) (an_children node)) in *.
+    assert (HD1 : D (S m) = D m + 1).
+    { pose proof (Dp_split E E0 [SOpen name false] (kids ++ [SClose name] ++ E1)) as G. cbn [length] in G.
+      rewrite <- Hm, Nat.add_1_r in G. rewrite G; [reflexivity|]. rewrite HE. cbn [app]. rewrite <- app_assoc. reflexivity. }
+    assert (HD2 : D (S m + length kids) = D (S m)).
+    { pose proof (Dp_split E (E0 ++ [SOpen name false]) kids ([SClose name] ++ E1)) as G.
+      rewrite app_length in G. cbn [length] in G. rewrite <- Hm, Nat.add_1_r in G. rewrite G.
+      - apply depth_forest.
+      - rewrite HE. cbn [app]. rewrite <- !app_assoc. reflexivity. }
+    set (m2 := (S m + length kids)%nat) in *.
+    destruct (LI_PL _ _ (S m) None Ho (Popen_none E _) (PL_push_str [c_gt] st1 eq_refl)) as [p0 [Hgt [_ Hn0]]].
+    rewrite (Hn0 eq_refl) in Hgt. clear p0 Hn0.
+    set (st2 := push_str c [c_gt] st1) in *.
+    assert (Hl2 : lvl st2 = D m) by (unfold st2; rewrite lvl_push_str; exact Hlo).
+    assert (Hgi : get_indent c (Some node) = 1).
+    { rewrite get_indent_wf; [cbn [named_opt]; rewrite En; reflexivity|]. cbn [pwf]. unfold nwf. rewrite En. reflexivity. }
+    (* the content leaves a pending break that a closing tag may follow *)
+    assert (Hc : exists p', LI (el_content c (x :: nm) node next st2) m2 p' /\ PC m2 p').
+    { unfold el_content. destruct (el_snippet c node next st2) as [st'|] eqn:Es.
+      - destruct (el_snippet_some_inv node next st2 st' Es) as [v0 [value [ix [Ev [Ef Hne]]]]].
+        destruct (snippet_ok_inv node v0 value ix Hsn Ev Hne Ef) as [Hcr Hfl].
+        assert (Hvv : oval (an_value node) = v0 :: value) by (rewrite Ev; reflexivity).
+        destruct (LI_el_snippet node next st2 st' (S m) None Es Hk Hnext Hgt (Popen_none E _)) as [ix' [pw [Ef' [_ [HQ [Hend Hmore]]]]]].
+        { rewrite Hl2, Hgi. exact HD1. }
+        { rewrite Hvv. rewrite Ev in Hv. exact Hv. }
+        { right. rewrite Hvv. exact Hcr. }
+        { exact HD2. }
+        rewrite Hvv in Ef', Hend, Hmore. rewrite Ef in Ef'. injection Ef' as <-. fold kids in HQ, Hend, Hmore. fold m2 in HQ, Hend, Hmore.
+        destruct (exists_last Hne) as [l0 [xl El]].
+        destruct (last_ctx node l0 xl El) as [Ht [Hlf Hlo']]. specialize (HQ l0 xl El). unfold Qn in HQ. rewrite Ht in HQ.
+        destruct (should_format c (Some node) xl (length l0) (an_children node)) eqn:Efmt.
+        + exists pw. split; [apply Hend, Hfl, Hlf|]. rewrite HQ. apply PC_some.
+          cbn [is_snippet_opt]. unfold is_snippet. rewrite En. cbn [truthy_s negb andb]. reflexivity.
+        + destruct HQ as [HQ1 HQ2]. rewrite Hlast in Hlo'. cbn [orb] in Hlo'. symmetry in Hlo'. specialize (HQ2 Hlo').
+          destruct (Hmore HQ1) as [p' [H3 [_ Hn3]]]. rewrite (Hn3 HQ2 Hcr) in H3. exists None. split; [exact H3|apply Pclose_none].
+      - destruct (LI_el_value node st2 (S m) Hgt) as [pv [Hv1 [Hv2 Hv3]]]; [rewrite Hl2; exact HD1|exact Hv|].
+        assert (Hlv : lvl (el_value c node st2) = D m) by (rewrite lvl_el_value; exact Hl2).
+        destruct (no_children node) eqn:Enc.
+        + assert (Ech : an_children node = []) by (unfold no_children in Enc; destruct (an_children node); [reflexivity|discriminate]).
+          rewrite (Hnil Ech).
+          assert (Em2 : m2 = S m) by (unfold m2, kids; rewrite Ech; cbn [flat_map length]; apply Nat.add_0_r). rewrite Em2.
+          apply (LI_el_leaf (x :: nm) node _ (S m) pv Hv1); [rewrite Hlv; exact HD1|exact Hv2|intros e _; apply Hv3, e].
+        + assert (Hne : an_children node <> []) by (intros e; unfold no_children in Enc; rewrite e in Enc; discriminate).
+          destruct (Hnext _ pv Hv1 Hv2) as [pw [Hw [_ HQ]]]; [rewrite Hlv, Hgi; exact HD1|].
+          fold kids in Hw, HQ. fold m2 in Hw, HQ.
+          destruct (exists_last Hne) as [l0 [xl El]].
+          destruct (last_ctx node l0 xl El) as [Ht [Hlf Hlo']]. specialize (HQ l0 xl El). unfold Qn in HQ. rewrite Ht in HQ.
+          assert (Hpc : PC m2 pw).
+          { destruct (should_format c (Some node) xl (length l0) (an_children node)) eqn:Efmt.
+            - rewrite HQ. apply PC_some. cbn [is_snippet_opt]. unfold is_snippet. rewrite En. cbn [truthy_s negb andb]. reflexivity.
+            - destruct HQ as [HQ1 HQ2]. rewrite Hlast in Hlo'. cbn [orb] in Hlo'. symmetry in Hlo'. rewrite (HQ2 Hlo'). apply Pclose_none. }
+          apply (LI_el_leaf (x :: nm) node _ m2 pw Hw); [|exact Hpc|].
+          * rewrite Hk, Hlv, HD2. exact HD1.
+          * intros _ Hnc. rewrite Enc in Hnc. discriminate. }
+    destruct Hc as [pc [Hc1 Hc2]].
+    unfold el_close. rewrite comment_off. fold name.
+    replace (m + length (SOpen name false :: kids ++ [SClose name]))%nat with (S m2)
+      by (cbn [length]; rewrite app_length; cbn [length]; unfold m2; lia).
+    unfold LI. rewrite ch_push_str, string_chunks_nocrlf by (rewrite !nocrlf_app, Nb; reflexivity).
+    cbn [app]. apply (Lines_close f E (O, None) _ m2 pc name Hc1 Hc2).
+Qed.
+
+(* ---------------------------------------------------------------- a text node *)
+Lemma Dp_forest E0 l E1 : E = E0 ++ flat_map (tree_events c) l ++ E1 ->
+  D (length E0 + length (flat_map (tree_events c) l)) = D (length E0).
+Proof. intros HE. rewrite (Dp_split E E0 _ E1 HE). apply depth_forest. Qed.
+
+Lemma Qn_last_PO node (l0 : list anode) x n' pw :
+  truthy_s (an_name node) = false -> nwf node = true ->
+  Qn (Some node) x (length l0) (an_children node) n' pw -> PO n' pw.
+Proof.
+  intros Hn Hw HQ. unfold Qn in HQ. destruct (tailb _ _ _ _).
+  - rewrite HQ. apply PO_some. cbn [is_snippet_opt]. unfold is_snippet. unfold nwf in Hw. rewrite Hn in *.
+    cbn [orb negb andb] in *. rewrite Hw. lia.
+  - apply HQ.
+Qed.
+
+Lemma LI_el_unnamed node next st m p E0 E1 :
+  truthy_s (an_name node) = false -> nwf node = true ->
+  oval_nolt (an_value node) = true ->
+  E = E0 ++ tree_events c node ++ E1 -> m = length E0 ->
+  LI st m p -> PO m p -> lvl st = D m ->
+  keeps_lvl next -> (an_children node = [] -> forall s, next s = s) ->
+  (truthy_l (an_value node) = true -> next_ok node next m) ->
+  exists p', LI (el_unnamed c node next st) (m + length (tree_events c node)) p' /\
+             PO (m + length (tree_events c node)) p' /\ (ends_text node = true -> p' = None).
+Proof.
+  intros En Hw Hv HE Hm H Hp HL Hk Hnil Hnext.
+  assert (Hgi : get_indent c (Some node) = 0).
+  { rewrite get_indent_wf; [cbn [named_opt]; rewrite En; reflexivity|exact Hw]. }
+  assert (Hev : tree_events c node = if truthy_l (an_value node) then flat_map (tree_events c) (an_children node) else []).
+  { rewrite tree_events_eq. destruct (an_name node) as [[|x nm]|]; try reflexivity. discriminate. }
+  assert (Het : ends_text node = no_children node && ends_visible (oval (an_value node))).
+  { unfold ends_text. rewrite En. reflexivity. }
+  rewrite Hev in HE |- *. rewrite Het. unfold el_unnamed.
+  destruct (el_snippet c node next st) as [st'|] eqn:Es.
+  - destruct (el_snippet_some_inv node next st st' Es) as [v0 [value [ix [Ev [Ef Hne]]]]].
+    rewrite Ev in HE, Hnext |- *. cbn [truthy_l] in *. specialize (Hnext eq_refl).
+    set (kids := flat_map (tree_events c) (an_children node)) in *.
+    assert (HD2 : D (m + length kids) = D m) by (rewrite Hm; apply (Dp_forest E0 _ E1 HE)).
+    destruct (LI_el_snippet node next st st' m p Es Hk Hnext H Hp) as [ix' [pw [_ [_ [HQ [_ Hmore]]]]]].
+    { rewrite Hgi. lia. }
+    { rewrite Ev. rewrite Ev in Hv. exact Hv. }
+    { left. exact HL. }
+    { exact HD2. }
+    destruct (exists_last Hne) as [l0 [xl El]]. specialize (HQ l0 xl El).
+    destruct (Hmore (Qn_last_PO node l0 xl _ pw En Hw HQ)) as [p' [H3 [Hp3 _]]].
+    exists p'. split; [exact H3|]. split; [exact Hp3|].
+    unfold no_children. destruct (an_children node); [contradiction|discriminate].
+  - destruct (an_value node) as [[|v0 value]|] eqn:Ev; cbn [truthy_l oval] in *.
+    + exists p. rewrite Nat.add_0_r. repeat split; try assumption. rewrite andb_false_r. discriminate.
+    + specialize (Hnext eq_refl). set (kids := flat_map (tree_events c) (an_children node)) in *.
+      destruct (LI_tokens st m p (v0 :: value) H Hp Hv (or_introl HL)) as [p1 [H1 [Hp1 [_ [Hv1 _]]]]].
+      destruct (no_children node) eqn:Enc.
+      * assert (Ech : an_children node = []) by (unfold no_children in Enc; destruct (an_children node); [reflexivity|discriminate]).
+        rewrite (Hnil Ech). assert (Ek : length kids = O) by (unfold kids; rewrite Ech; reflexivity).
+        rewrite Ek, Nat.add_0_r. exists p1. repeat split; assumption.
+      * assert (Hne : an_children node <> []) by (intros e; unfold no_children in Enc; rewrite e in Enc; discriminate).
+        destruct (Hnext _ p1 H1 Hp1) as [pw [Hww [_ HQ]]]; [rewrite lvl_push_tokens, Hgi; lia|].
+        destruct (exists_last Hne) as [l0 [xl El]]. specialize (HQ l0 xl El).
+        exists pw. split; [exact Hww|]. split; [apply (Qn_last_PO node l0 xl _ pw En Hw HQ)|discriminate].
+    + exists p. rewrite Nat.add_0_r. repeat split; try assumption. rewrite andb_false_r. discriminate.
+Qed.
+
+(* ---------------------------------------------------------------- element(): own line break, body, closing line break *)
+Lemma node_parts n : depth_node c n = true ->
+  good (match an_name n with Some x => x | None => [] end) = true /\
+  name_start (match an_name n with Some x => x | None => [] end) = true /\
+  nwf n = true /\ oval_nolt (an_value n) = true /\
+  forallb attr_good (match an_attrs n with Some l => l | None => [] end) = true /\
+  (truthy_s (an_name n) = true -> last_ok c n = true /\ snippet_ok c n = true) /\
+  forallb (depth_node c) (an_children n) = true.
+Proof.
+  rewrite depth_node_eq. intros H.
+  apply andb_true_iff in H. destruct H as [H H7]. apply andb_true_iff in H. destruct H as [H H6].
+  apply andb_true_iff in H. destruct H as [H H5]. apply andb_true_iff in H. destruct H as [H H4].
+  apply andb_true_iff in H. destruct H as [H H3]. apply andb_true_iff in H. destruct H as [H1 H2].
+  split; [exact H1|]. split; [exact H2|]. split; [exact H3|]. split; [exact H4|]. split; [exact H5|]. split; [|exact H7].
+  intros Hn. rewrite Hn in H6. cbn [negb orb] in H6. apply andb_true_iff in H6. exact H6.
+Qed.
+
+Lemma LI_html_step parent node index items next st p E0 E1 :
+  depth_node c node = true -> pwf parent ->
+  E = E0 ++ tree_events c node ++ E1 ->
+  LI st (length E0) p -> PO (length E0) p -> D (length E0) = lvl st + get_indent c parent ->
+  keeps_lvl next -> (an_children node = [] -> forall s, next s = s) ->
+  (forall m1, (exists Ea Eb, E = Ea ++ flat_map (tree_events c) (an_children node) ++ Eb /\ m1 = length Ea) -> next_ok node next m1) ->
+  exists p', LI (html_element_step c parent node index items next st) (length E0 + length (tree_events c node)) p' /\
+             Qn parent node index items (length E0 + length (tree_events c node)) p'.
+Proof.
+  intros Hd Hpw HE H Hp HD Hk Hnil Hnext.
+  destruct (node_parts node Hd) as [Hg [Hs [Hw [Hv [Ha [Hnm _]]]]]].
+  set (m := length E0) in *. set (m' := (m + length (tree_events c node))%nat).
+  assert (HDm : D m' = D m) by (unfold m', m; rewrite (Dp_split E E0 _ E1 HE); apply depth_tree).
+  unfold html_element_step. fold (entry c parent node index items st).
+  set (st1 := entry c parent node index items st).
+  assert (Hl1 : lvl st1 = D m) by (unfold st1; rewrite lvl_entry; lia).
+  assert (H1 : exists p1, LI st1 m p1 /\ PO m p1).
+  { unfold st1, entry. destruct (should_format c parent node index items).
+    - eexists. split; [apply (LI_newline _ m p); [apply LI_level, H|exact Hp]|]. cbn [units]. apply PO_some. rewrite lvl_map_level. lia.
+    - exists p. split; [apply LI_level, H|exact Hp]. }
+  destruct H1 as [p1 [H1 Hp1]].
+  assert (Hb : exists p2, LI (el_body c node next st1) m' p2 /\ PO m' p2 /\ (ends_text node = true -> p2 = None)).
+  { unfold el_body. destruct (an_name node) as [[|x nm]|] eqn:En.
+    - apply (LI_el_unnamed node next st1 m p1 E0 E1); try assumption; try reflexivity.
+      + unfold truthy_s. rewrite En. reflexivity.
+      + intros Ht. apply Hnext. exists E0, E1. split; [|reflexivity].
+        rewrite HE, tree_events_eq, En, Ht. reflexivity.
+    - exists None. split; [|split; [apply Popen_none|reflexivity]].
+      destruct (Hnm eq_refl) as [Hlast Hsn].
+      apply (LI_el_named x nm node next st1 m p1 E0 E1); try assumption; try reflexivity.
+      intros Esc. apply Hnext. exists (E0 ++ [SOpen (tag_name c (x :: nm)) false]), ([SClose (tag_name c (x :: nm))] ++ E1).
+      split; [|rewrite app_length; cbn [length]; unfold m; lia].
+      rewrite HE, tree_events_eq, En, Esc. cbn [app]. rewrite <- !app_assoc. reflexivity.
+    - apply (LI_el_unnamed node next st1 m p1 E0 E1); try assumption; try reflexivity.
+      + unfold truthy_s. rewrite En. reflexivity.
+      + intros Ht. apply Hnext. exists E0, E1. split; [|reflexivity].
+        rewrite HE, tree_events_eq, En, Ht. reflexivity. }
+  destruct Hb as [p2 [H2 [Hp2 He2]]].
+  assert (Hl2 : lvl (el_body c node next st1) = D m') by (rewrite lvl_el_body by exact Hk; rewrite HDm; exact Hl1).
+  unfold Qn, tailb, el_tail.
+  destruct (tail_newline c (should_format c parent node index items) parent index items).
+  - eexists. split; [apply LI_level, (LI_newline_int _ m' p2); [exact H2|exact Hp2]|]. rewrite Hl2. reflexivity.
+  - exists p2. split; [apply LI_level, H2|]. split; assumption.
+Qed.
+
+Definition elem_spec (n : anode) : Prop :=
+  depth_node c n = true ->
+  forall parent index items st p E0 E1, pwf parent ->
+    E = E0 ++ tree_events c n ++ E1 ->
+    LI st (length E0) p -> PO (length E0) p -> D (length E0) = lvl st + get_indent c parent ->
+    exists p', LI (html_element c parent n index items st) (length E0 + length (tree_events c n)) p' /\
+               Qn parent n index items (length E0 + length (tree_events c n)) p'.
+
+Lemma tailb_not_last parent x pre r items : items = pre ++ x :: r -> r <> [] -> tailb parent x (length pre) items = false.
+Proof.
+  intros -> Hr. unfold tailb, tail_newline. rewrite app_length. cbn [length].
+  replace (Nat.eqb (length pre) (length pre + S (length r) - 1)) with false.
+  - rewrite andb_false_r. reflexivity.
+  - symmetry. apply Nat.eqb_neq. destruct r; [contradiction|]. cbn [length]. lia.
+Qed.
+
+Lemma LI_html_walk parent items : pwf parent -> forall l pre st p E0 E1,
+  items = pre ++ l -> Forall elem_spec l -> forallb (depth_node c) l = true ->
+  E = E0 ++ flat_map (tree_events c) l ++ E1 ->
+  LI st (length E0) p -> PO (length E0) p -> D (length E0) = lvl st + get_indent c parent ->
+  exists p', LI (html_walk c parent items (length pre) l st) (length E0 + length (flat_map (tree_events c) l)) p' /\
+             (l = [] -> p' = p) /\
+             (forall l0 x, l = l0 ++ [x] ->
+                Qn parent x (length pre + length l0) items (length E0 + length (flat_map (tree_events c) l)) p').
+Proof.
+  intros Hpw. induction l as [|a r IH]; intros pre st p E0 E1 Hit HF Hd HE H Hp HD.
+  - exists p. cbn [html_walk flat_map length]. rewrite Nat.add_0_r. repeat split; try assumption.
+    intros l0 x e. destruct l0; discriminate.
+  - pose proof (Forall_inv HF) as Ha. pose proof (Forall_inv_tail HF) as HF'. cbn [forallb] in Hd. apply andb_true_iff in Hd. destruct Hd as [Hda Hdr].
+    cbn [flat_map] in HE. rewrite <- app_assoc in HE.
+    destruct (Ha Hda parent (length pre) items st p E0 (flat_map (tree_events c) r ++ E1) Hpw HE H Hp HD) as [p1 [H1 HQ1]].
+    cbn [html_walk flat_map]. rewrite app_length, Nat.add_assoc.
+    destruct r as [|b r'].
+    + exists p1. cbn [html_walk flat_map length]. rewrite Nat.add_0_r. split; [exact H1|]. split; [discriminate|].
+      intros l0 x e. destruct l0 as [|y [|z l0]]; try discriminate. injection e as <-. cbn [length]. rewrite Nat.add_0_r. exact HQ1.
+    + assert (Hnl : tailb parent a (length pre) items = false) by (apply (tailb_not_last parent a pre (b :: r') items Hit); discriminate).
+      unfold Qn in HQ1. rewrite Hnl in HQ1. destruct HQ1 as [Hp1 _].
+      set (Ea := E0 ++ tree_events c a).
+      assert (HEa : E = Ea ++ flat_map (tree_events c) (b :: r') ++ E1) by (unfold Ea; rewrite <- app_assoc; exact HE).
+      assert (Hla : length Ea = (length E0 + length (tree_events c a))%nat) by (unfold Ea; apply app_length).
+      assert (Hit' : items = (pre ++ [a]) ++ b :: r') by (rewrite <- app_assoc; exact Hit).
+      destruct (IH (pre ++ [a]) (html_element c parent a (length pre) items st) p1 Ea E1 Hit' HF' Hdr HEa) as [p2 [H2 [_ HQ2]]].
+      * rewrite Hla. exact H1.
+      * rewrite Hla. exact Hp1.
+      * rewrite Hla. unfold lvl. rewrite level_restored_lemma. fold (lvl st). rewrite <- HD.
+        rewrite (Dp_split E E0 _ _ HE). apply depth_tree.
+      * rewrite app_length in H2, HQ2. cbn [length] in H2, HQ2. rewrite Nat.add_1_r, Hla in H2. rewrite Hla in HQ2.
+        exists p2. split; [exact H2|]. split; [discriminate|].
+        intros l0 x e. destruct l0 as [|y l0]; [discriminate|]. cbn [app] in e. injection e as <- e.
+        specialize (HQ2 l0 x e). cbn [length]. replace (length pre + S (length l0))%nat with (length pre + 1 + length l0)%nat by lia.
+        exact HQ2.
+Qed.
+
+Theorem LI_html_element : forall n, elem_spec n.
+Proof.
+  induction n as [nm v rp at_ ch sc IHch] using anode_ind'. intros Hd parent index items st p E0 E1 Hpw HE H Hp HD.
+  set (node := ANode nm v rp at_ ch sc) in *.
+  destruct (node_parts node Hd) as [_ [_ [Hw [_ [_ [_ Hkids]]]]]].
+  rewrite html_element_unfold. apply (LI_html_step parent node index items _ st p E0 E1); try assumption.
+  - intros s. apply lvl_html_children.
+  - intros Ech s. rewrite html_children_walk, Ech. reflexivity.
+  - intros m1 [Ea [Eb [HEk ->]]] st0 p0 H0 Hp0 HD0. rewrite html_children_walk.
+    apply (LI_html_walk (Some node) (an_children node) Hw (an_children node) [] st0 p0 Ea Eb eq_refl IHch Hkids HEk H0 Hp0 HD0).
+Qed.
+
+(* ---------------------------------------------------------------- the whole abbreviation *)
+Theorem format_lines_indented forest :
+  E = flat_map (tree_events c) forest -> depth_dom c forest = true ->
+  lines_indented f E (fchunks (html_format c forest)).
+Proof.
+  intros HE Hd. rewrite html_format_walk.
+  assert (HF : Forall elem_spec forest) by (apply Forall_forall; intros n _; apply LI_html_element).
+  assert (HE' : E = [] ++ flat_map (tree_events c) forest ++ []) by (rewrite app_nil_r; exact HE).
+  destruct (LI_html_walk None forest I forest [] (mkFs os_empty 1) None [] [] eq_refl HF Hd HE') as [p' [H1 [Hn HQ]]].
+  - apply L_nil.
+  - apply Popen_none.
+  - reflexivity.
+  - apply (Lines_lines_indented f E Hnl Hind _ _ H1). intros k Hk. cbn [fst snd] in *.
+    destruct forest as [|a r] eqn:Ef.
+    + rewrite (Hn eq_refl) in Hk. discriminate.
+    + assert (Hne : a :: r <> []) by discriminate. destruct (exists_last Hne) as [l0 [x El]].
+      specialize (HQ l0 x El). unfold Qn, tailb, tail_newline in HQ. rewrite !andb_false_r in HQ. cbn [andb] in HQ.
+      apply (proj1 HQ k Hk).
 Qed.
 End Depth.
